@@ -23,6 +23,10 @@ use crate::opcodes::OpcodeKind;
 
 impl Generator {
     pub(super) fn generate_internal(&mut self, source: &mut GenerationSource) -> Result<Vec<u8>> {
+        // every call starts from a clean slate, so a generator can be reused without
+        // the previous pickle (output, stack, memo, PROTO flag) leaking into the next one
+        self.reset();
+
         // decide if we'll use FRAME (only for protocol >= 4, randomly chosen)
         let use_frame = self.state.version >= Version::V4 && source.gen_bool();
 
